@@ -115,7 +115,7 @@ def make_e_lookup(params, part, nparts):
     flavour = params.get('flavour', 'adapter')
     NA = len(alpha)
 
-    def h(n: int, o1: int, o2: int, o3: int, rm: int):
+    def h(n: int, o1: int, o2: int, o3: int, rm: int = 0):
         c1 = pick(o1, NA)
         assume(c1 % nparts == part)
         ln = pick(n, L) + 1   # 1..L registrations
